@@ -103,13 +103,24 @@ def chess_replay(arts, props, perft=0, timeout=3600):
     for a in arts:
         groups.setdefault(open(os.path.join(a, "roots.ndjson")).read(), []).append(a)
     merged = None
+
+    def tree_depth(a):
+        """Depth of a complete game tree artefact (0 for walks and other partial explorations)."""
+        import re
+        cfg = open(os.path.join(a, "run.cfg")).read()
+        if "-simulate" in vlib.art_stats(a).get("args", []) or not re.search(r"Walks = 0\b", cfg) or 'Acts = {"Move"}' not in cfg:
+            return 0
+        m = re.search(r"MaxDepth = (\d+)", cfg)
+        return int(m.group(1)) if m else 0
     for grp in groups.values():
         run = vlib.scratch("chess")
         try:
             out = os.path.join(run, "res.json")
+            # perft totals are compared with TLC's level counts only as deep as a COMPLETE tree of the group reaches
+            gperft = min(perft, max(tree_depth(a) for a in grp))
             args = ["chess-replay", "-roots", os.path.join(grp[0], "roots.ndjson"),
                     "-obs", ",".join(vlib.art_out(a) for a in grp), "-props", ",".join(props),
-                    "-perft", perft, "-seed", SEED, "-out", out]
+                    "-perft", gperft, "-seed", SEED, "-out", out]
             res = vlib.run_driver(args, timeout=timeout, cwd=run)
         finally:
             shutil.rmtree(run, ignore_errors=True)
